@@ -95,10 +95,10 @@ def plan(tier, seed):
 COLORS = ["FF0000", "00FF00", "0000FF"]
 
 
-def named_tree(shape, offset=0):
-    """-> (ete tree, nested tuple of leaf names, {clade: (name, color or None)})"""
+def named_tree(shape, offset=0, unnamed=False):
+    """-> (ete tree, nested tuple of leaf names, {clade: (name, color or None)}); unnamed: every ancestor nameless"""
     t = T(shape)
-    names = {v: (f"L{v}" if not t.children[v] else f"N{v}") for v in range(t.n)}
+    names = {v: (f"L{v}" if not t.children[v] else ("" if unnamed else f"N{v}")) for v in range(t.n)}
     feats = {}
     for i, v in enumerate(t.internal):
         if (i + offset) % 2 == 0:
@@ -129,8 +129,8 @@ def ete_info(tree):
     return out
 
 
-def check_binarize(shape, offset=0):
-    tree, nested, info = named_tree(shape, offset)
+def check_binarize(shape, offset=0, unnamed=False):
+    tree, nested, info = named_tree(shape, offset, unnamed)
     before = tree.write(format=1, features=["color"], format_root_node=True)
     try:
         res = list(binarize(tree))
@@ -261,10 +261,13 @@ def check_e2e(algo, O, S, leafmap, leafsyn, costs, session=None, epoch=0):
     is_ord = model == "ordered"
     best, want, pairs, attain = oracle_e2e(algo, O, S, leafmap, leafsyn, costs)
     nontriv = pairs >= 3 or attain < pairs
-    onames = A.default_names(O, "o")
-    snames = A.default_names(S, "s")
+    # the ancestors of the input already carry names of the form the solvers generate for new nodes (O#/S#), as after a
+    # label_internal() call or a round through the command-line tool
+    onames = {v: (f"O{v}" if O.children[v] else f"o{v}") for v in range(O.n)}
+    snames = {v: (f"S{v}" if S.children[v] else f"s{v}") for v in range(S.n)}
     ofe = {v: {"color": "AA00AA"} for v in O.internal[:1]}
     if session is not None:
+        snames = {v: session.snode[v].name for v in range(S.n)}
         onames = {v: (f"o{v}e{epoch}" if O.children[v] else f"o{v}") for v in range(O.n)}
         ofe = {v: {"color": SESSION_COLOURS[epoch % 3]} for v in O.internal[:1]}
         for v in O.internal:
@@ -361,6 +364,13 @@ def run_shard(shard, tier, seed):
             off = shard["offset"] + j
             bad = check_binarize(shape, off)
             case = {"mode": "enum", "shape": shape, "offset": off}
+            if not bad:
+                # the same tree with nameless ancestors (ete3 gives them all the same empty name)
+                n_eval += 1
+                bad = check_binarize(shape, off, unnamed=True)
+                if bad:
+                    bad = "with unnamed ancestors: " + bad
+                    case = dict(case, unnamed=True)
             if not T(shape).is_binary():
                 nt += 1
             if bad:
@@ -412,7 +422,7 @@ def replay(v):
         hits = [x for x in res["violations"] if x["subcheck"] == v.get("subcheck")] or res["violations"]
         return {"violated": bool(hits), "detail": (hits[0]["subcheck"] + ": " + hits[0]["detail"]) if hits else None}
     if c["mode"] == "enum":
-        bad = check_binarize(shape_from_json(c["shape"]), c.get("offset", 0))
+        bad = check_binarize(shape_from_json(c["shape"]), c.get("offset", 0), c.get("unnamed", False))
         return {"violated": bool(bad), "detail": bad}
     if c["mode"] == "input":
         bad = check_input_binarize(shape_from_json(c["object_shape"]), shape_from_json(c["species_shape"]))
